@@ -12,7 +12,8 @@ import ChessVerif.Spec.Fen
 import ChessVerif.DriverExtra
 import ChessVerif.DriverSearch
 import ChessVerif.Spec.Mate
-import ChessVerif.Lemmas.OKDec
+import ChessVerif.Lemmas.OKDefs
+import ChessVerif.Lemmas.SanRound
 open Chess
 
 -- PRNG -------------------------------------------------------------------------------------------
@@ -54,8 +55,9 @@ def modelState (T : ZTable) (p : Position) : String :=
   "|rep=" ++ b2s (isRepeated p) ++ "|three=" ++ b2s (threefold p) ++ "|r50=" ++ b2s (rule50 p) ++
   "|mat=" ++ b2s (enoughMaterial p) ++ "|draw=" ++ b2s (isDraw p) ++
   "|poly=" ++ hex16 (polyKey p) ++ "|hist=" ++ toString p.history.length ++
-  -- the standing hypotheses of the C03/C04 theorems (Ranges, UndoOK of every generated move) evaluated here:
-  "|sync=" ++ (if hypothesesHold p then "ok" else "hypotheses-fail")
+  -- the standing hypotheses of the C03/C04 theorems (Ranges, UndoOK of every generated move) and of the C17 round-trip
+  -- theorem (genShapeB: no duplicate moves, well-shaped codes) evaluated here:
+  "|sync=" ++ (if hypothesesHold p then (if genShapeB p then "ok" else "genshape-fail") else "hypotheses-fail")
 
 structure SState where
   cur : Spec.SPos
@@ -420,6 +422,35 @@ def mirrorPos (p : Spec.SPos) : Spec.SPos :=
     castling := ((p.castling &&& 3) <<< 2) ||| ((p.castling >>> 2) &&& 3),
     ep := if p.ep = 64 then 64 else (7 - p.ep / 8) * 8 + p.ep % 8, halfmove := p.halfmove, fullmove := p.fullmove }
 
+/-- add pieces of code `pc` on random empty squares until the board holds `want` of them (at most 200 draws) -/
+def fillTo (r : Rng) (b : List Nat) (pc want : Nat) : Rng × List Nat :=
+  (List.range 200).foldl (fun (st : Rng × List Nat) _ =>
+    if Spec.count st.2 pc ≥ want then st
+    else
+      let (r, sq) := st.1.below 64
+      (r, putPiece st.2 sq pc)) (r, b)
+
+/-- the piece-list boundary: nine knights, bishops or rooks and ONE pawn about to promote — an under-promotion makes the
+    tenth piece of that kind (the capacity of a piece list); kings placed last -/
+def labTenth (r : Rng) : Rng × Spec.SPos :=
+  let (r, f) := r.below 8
+  let b := emptyBoard.set (48 + f) 1
+  let (r, kind) := r.pick [2, 3, 4]
+  let (r, b) := fillTo r b kind 9
+  let (r, wk) := r.below 48
+  let b := putPiece b wk 6
+  -- the black king on an empty square that none of the many white pieces attacks (first of 40 draws that qualifies)
+  let (r, bk) := (List.range 40).foldl (fun (st : Rng × Nat) _ =>
+    if st.2 < 64 then st
+    else
+      let (r, sq) := st.1.below 64
+      if Spec.pcAt b sq = 0 && !Spec.attacked (b.set sq 12) sq 0 then (r, sq) else (r, 64)) (r, 64)
+  let b := if bk < 64 then putPiece b bk 12 else b
+  let (r, m) := r.below 3
+  let (r, b) := sprinkle r b m [9, 10, 11, 8, 7]
+  -- White (the promoting side) to move; genLabLoop mirrors half of them so that Black's lists reach the boundary too
+  (r, { board := b, side := 0, castling := 0, ep := 64, halfmove := 1, fullmove := 40 })
+
 def labPromo (r : Rng) : Rng × Spec.SPos :=
   let (r, n) := r.below 3
   let (r, b) := (List.range (n + 1)).foldl (fun (st : Rng × List Nat) _ =>
@@ -474,9 +505,10 @@ def shuffleFrom (r : Rng) (p : Spec.SPos) : Rng × List String :=
 
 partial def genLabLoop (r : Rng) (want : Nat) (tries : Nat) (everyMove : Bool) : IO Unit := do
   if want = 0 ∨ tries = 0 then return ()
-  let (r, fam) := r.below 12
+  let (r, fam) := r.below 13
   let (r, p) :=
-    if fam ≥ 10 then (let (r, p) := labSan r; let (r, m) := r.below 2; (r, if m = 0 then p else mirrorPos p))
+    if fam = 12 then (let (r, p) := labTenth r; let (r, m) := r.below 2; (r, if m = 0 then p else mirrorPos p))
+    else if fam ≥ 10 then (let (r, p) := labSan r; let (r, m) := r.below 2; (r, if m = 0 then p else mirrorPos p))
     else if fam < 3 then labCastling r
     else if fam < 6 then (let (r, p) := labEp r; let (r, m) := r.below 2; (r, if m = 0 then p else mirrorPos p))
     else if fam < 8 then (let (r, p) := labPromo r; let (r, m) := r.below 2; (r, if m = 0 then p else mirrorPos p))
